@@ -340,7 +340,14 @@ def evaluate(ck, cases, seeds, tag="C11"):
         idx.append(i)
         lits.append(g_case(case, ss))
     ty = "spec * list xobs"
-    bad, errs = common.coq_failing(tag, HEADER, ty, "c11_case", lits)
+    # small shards: a 400-case shard of wide specifications needs > 3 GB and minutes in coqc
+    shard = 32 if len(lits) <= 200 else 100
+    bad, errs = common.coq_failing(tag, HEADER, ty, "c11_case", lits, shard=shard)
+    if errs and all(not e[1].strip() or "timed out" in e[1] for e in errs):
+        # coqc died without saying anything (killed under memory pressure / timed out on a
+        # loaded machine): an infrastructure failure, not a verdict -- once more, smaller
+        ck.notes["coqc_retry"] = [os.path.basename(e[0]) for e in errs]
+        bad, errs = common.coq_failing(tag, HEADER, ty, "c11_case", lits, shard=max(8, shard // 2))
     if bad:
         sub = [lits[j] for j in bad]
         bad_mon, e1 = common.coq_failing(tag + "_mon", HEADER, ty, "c11_monitor", sub)
